@@ -7,6 +7,13 @@ BASE_NOTE = ("Trusted: Coq 8.16.1 kernel (no native_compute; vm_compute only in 
              "(Print Assumptions parsed every run; theorems at R would add the 3 stdlib real axioms); ExtrOcamlBasic extraction with Z/Q/Qc kept as datatypes + a Zarith I/O driver; "
              "the Python correspondence harness and its tolerances; JAX/NumPy primitives are modelled by contracts (rfftn/irfftn = DFT half-spectrum, scan = fold, exp). ")
 CLAIMED = {
+ "C01": dict(text="Theorems over any field of characteristic 0 with an abstract exponential (exp(a+b)=exp a exp b, exp 0=1): the symbol each linear stepper builds is the symbol of its DOCUMENTED "
+                  "operator (deep embedding of constant-coefficient operators; advection, full-matrix diffusion, both dispersion / hyper-diffusion variants, generic list; D<=3); order 0 multiplies "
+                  "mode k by exp(dt*lambda_k) (translated from the source); n steps = one step with n*dt and -dt undoes dt for every state, dt, n; the wave stepper's diagonalisation is the exact "
+                  "oscillator solution incl. the mean mode. Symbol model and wave model are compared with the real code at every stored mode (exact rationals).",
+             note="The symbol calculus rule d/dx e^{ikx} = ik e^{ikx} and 'stored mode k carries e^{i kappa_k x}' (C04) are used, not re-proved here; jnp.exp trusted; analytic oracle on the real code "
+                  "for all modes below Nyquist on small grids, superpositions, dt up to 1e3, negative dt.",
+             technique="Rocq proof (ring identities on a deep embedding of the documented PDEs, induction for the semigroup) + exact-rational symbol correspondence", design="§4 C01"),
  "C13": dict(text="Theorems over any field of characteristic 0: the 16 conversion functions (re-translated from generic/_utils.py on every run) are mutual inverses and equal the documented "
                   "formulas; dt*symbol_{L,a}(k) = symbol_{1,alpha}(k) at every mode for every coefficient list; rescaling invariance of the groups; every ETD tableau depends on (h,N) only "
                   "through h*N; the linear symbol of each concrete stepper equals the generic symbol with the equivalent coefficient list (D<=3). The hand-written symbol model is compared with "
